@@ -55,6 +55,7 @@ def plan(tier, seed):
     for it, opts in (({"kind": "extra", "name": "named_like_library"}, ""), ({"kind": "extra", "name": "deprecated_rpc_only"}, ""),
                      ({"kind": "features"}, ""), ({"kind": "features"}, "typing.310"), ({"kind": "extra", "name": "odd_map_and_nested_names"}, ""), ({"kind": "extra", "name": "named_like_library"}, "typing.310")):
         shards.append({"kind": "generated", "item": it, "opts": opts, "seed": seed})
+    shards.append({"kind": "wide"})
     return shards
 
 
@@ -339,6 +340,13 @@ def run_shard(shard) -> Result:
             check_identifier(x, res, naming, bp)
         res.extra["exhaustive_max_len"] = shard["max_len"]
         res.sample({"exhaustive": f"all identifiers of length <= {shard['max_len']} over {{a,B,1,_}}", "example": "aB_1"})
+    elif k == "wide":
+        try:
+            _wide(res, bp)
+        except Exception as e:
+            import traceback
+
+            res.inconclusive.append(f"oracle crashed (wide): {type(e).__name__}: {e}\n{traceback.format_exc()[-800:]}")
     elif k == "lists":
         names = set(keyword.kwlist) | set(keyword.softkwlist) | set(dir(builtins)) | set(CORPUS) | set(API_NAMES)
         for x in sorted(names):
@@ -412,6 +420,50 @@ def _protoc_sample(shard, res: Result, naming):
             except Exception as e:
                 res.violation("plugin", ["use", shape(x), "raised:" + type(e).__name__], f"generated class for proto field {x!r}: {e!r}", {"ident": x})
         res.sample({"protoc_sample": pool[:8]})
+    finally:
+        b.cleanup()
+
+
+def _wide(res: Result, bp):
+    """a generated message of 70 fields whose proto names are camelCase / capitals: every key that maps back to its field on
+    a ONE-field class of the same attribute name (the key to_dict emits in either casing, the original proto name) must map
+    back on the wide class too -- the number of fields of a message is not supposed to matter"""
+    import dataclasses
+
+    from .. import corpus
+    from ..values import attr_names
+
+    b = corpus.build_item({"kind": "extra", "name": "wide_package"})
+    try:
+        mi = b.msgs[".vfwide.big.WideNames"]
+        cls = b.bp_class(mi.full_name)
+        names = attr_names(cls)
+        for fi in mi.fields:
+            py = names[fi.number]
+            v = "v" if fi.kind == "string" else 7
+            narrow = dataclasses.make_dataclass("Narrow", [(py, type(v), bp.string_field(1) if fi.kind == "string" else bp.int32_field(1))],
+                                                bases=(bp.Message,), eq=False, repr=False)
+            keys = {"ORIGINAL": fi.name}
+            for cname in ("CAMEL", "SNAKE"):
+                d = cls(**{py: v}).to_dict(casing=getattr(bp.Casing, cname))
+                if len(d) == 1:
+                    keys[cname] = next(iter(d))
+            for kname, key in keys.items():
+                res.counters["wide_key_roundtrips"] += 1
+                w = {"kind": "wide", "field": fi.name, "key": key}
+                try:
+                    if getattr(narrow().from_dict({key: v}), py) != v:
+                        res.counters["wide_keys_not_mapped_back_on_a_one_field_class_either"] += 1
+                        continue
+                    got = [getattr(cls().from_dict({key: v}), py), getattr(cls.from_dict({key: v}), py), getattr(cls().from_pydict({key: v}), py)]
+                except Exception as e:
+                    res.violation("key", ["wide-message:" + kname, shape(fi.name), "raised:" + type(e).__name__], f"{fi.name!r}: {e!r}", w)
+                    continue
+                if got != [v, v, v]:
+                    res.violation("key", ["wide-message:" + kname, shape(fi.name), "field-dropped"],
+                                  f"proto field {fi.name!r} of a 70-field message: key {key!r} ({kname}) maps back on a one-field class but not here: {got}", w)
+        res.evaluations += 1
+        res.distinct.add("wide")
     finally:
         b.cleanup()
 
@@ -507,7 +559,9 @@ def replay(w):
     from betterproto.compile import naming
 
     res = Result()
-    if w.get("kind") == "generated":
+    if w.get("kind") == "wide":
+        _wide(res, bp)
+    elif w.get("kind") == "generated":
         _generated(w, res)
     elif "ident" in w:
         check_identifier(w["ident"], res, naming, bp)
